@@ -2186,6 +2186,7 @@ event_base_once(struct event_base *base, evutil_socket_t fd, short events,
 		res = event_add_nolock_(&eonce->ev, tv, 0);
 
 	if (res != 0) {
+		EVBASE_RELEASE_LOCK(base, th_base_lock);
 		mm_free(eonce);
 		return (res);
 	} else {
